@@ -30,3 +30,14 @@ claim("C17", "other", "lock-set analysis at clock reads with forward value flow;
       "Decides the structural conditions of exact tunnel-time accounting on all paths: every clock read that flows into a start time or a duration is made under the collector mutex; tunnels are started/stopped only from the authentication/close reports and the UDP entry constructor/removal, "
       "with keys derived by one function from the same two fields and the TCP stop cut by accessKey != \"\"; the report adds one and the same duration to both counters and then stores the same clock value as the new start; last-close reports before deleting, both only on connCount <= 0; counts change exactly once per call.",
       "Not decided: the arithmetic identity over histories and scrapes; per-connection balance of start/stop calls (C15/C16 call discipline).", "DESIGN.md §4 C17")
+
+claim("C14", "other", "CFG must-pass / path-count queries, who-may-mutate queries, dominance checks on the deadline hooks",
+      "Decides the reclamation structure of UDP associations on all paths: removal reported exactly once after the reply loop, entry deleted and the returned socket closed, the reply loop left only via the Timeout() classification; "
+      "table entries inserted/removed only by the helpers owned by Add and the association goroutine; every write through an association extends the deadline before the send; derived deadlines installed only on the After(readDeadline) edge and recorded, "
+      "immediate expiry only inside the sync.Once fast-close reached from the read side; the datagram loop defers the table's Close, which visits every entry under the write lock; the DNS timeout is 17 s decided from port 53 of the written address.",
+      "Not decided: every 'at least / within bounded time' clause; kernel deadline behaviour.", "DESIGN.md §4 C14")
+claim("C18", "other", "goroutine-region analysis with recover frames; panic-obligation discharge (bounds D1-D4, channel close, library preconditions); CFG pairing rules for WaitGroup, loop exits, Close and goroutine joins",
+      "Decides, over every path of every goroutine that handles network input: recover frames dominate all per-connection and per-datagram work; in the regions outside any recover frame every potential panic site (non-constant slice/index bounds, panicking type assertions, explicit panics, channel close, "
+      "WithLabelValues arity, Counter.Add sign, in-place Pack alignment) is discharged by a named procedure or reported; WaitGroup Add/Done/Wait pairing; the serve loops exit only on net.ErrClosed; client, target and association sockets are closed on every exit of their owner; "
+      "the relay joins its helper goroutine; reader goroutines are cancellable.",
+      "Bounds discharge D4 shows a bound exists on every untrusted length, not numeric sufficiency. Not decided: panics inside stdlib/third-party code, nil dereferences, resource exhaustion.", "DESIGN.md §4 C18")
